@@ -8,3 +8,4 @@ import ZbossModel.Props.C02
 #print axioms Zboss.Rx.extent_le
 #print axioms Zboss.Rx.extent_none_of_head
 #print axioms Zboss.Rx.C02_not_deaf
+#print axioms Zboss.Rx.C02_not_deaf_any_state
